@@ -345,6 +345,7 @@ func (d *D) execute(sc *core.Scenario, faults []simos.Fault) *outcome {
 // executeIn (re)writes the scenario's files into dir – whatever an earlier,
 // possibly killed run left there stays – and runs the command once.
 func (d *D) executeIn(dir string, sc *core.Scenario, faults []simos.Fault) *outcome {
+	core.HeartbeatNow()
 	d.lastDir = dir
 	for _, f := range sc.Files {
 		p := filepath.Join(dir, f.Name)
